@@ -81,16 +81,18 @@ Proof. exact set_desc_entries. Qed.
 Print Assumptions C19_descriptor_one_entry.
 
 (* SetAVCDescriptor: entry name as requested, width/height = the parser's (16 bit), tkhd = 16.16 fixed point,
-   avcC carries the SPS's profile/compatibility/level and exactly the supplied parameter sets (none if not included) *)
+   avcC carries the SPS's profile/compatibility/level, chroma format and bit depths (which fit their 2-/3-bit fields)
+   and exactly the supplied parameter sets (none if not included) *)
 Theorem C19_descriptor_avc :
   forall (avc_parse : avc_parser) t name spss ppss incl t',
     set_avc avc_parse t name spss ppss incl = (OOk, t') ->
-    exists sps0 rest w h p c l,
-      spss = sps0 :: rest /\ avc_parse sps0 = Some (w, h, (p, c, l))
+    exists sps0 rest w h p c l cf bl bc,
+      spss = sps0 :: rest /\ avc_parse sps0 = Some (w, h, (p, c, l, (cf, bl, bc)))
+      /\ cf <= 3 /\ bl <= 7 /\ bc <= 7
       /\ (name = BS "avc1" \/ name = BS "avc3")
       /\ sd_entries t' = sd_entries t ++
            [mkSE name 1 (w mod 65536) (h mod 65536) 0
-                 (CfgAvcC (mkAvcC p c l (if incl then spss else []) (if incl then ppss else [])))]
+                 (CfgAvcC (mkAvcC p c l (if incl then spss else []) (if incl then ppss else []) cf bl bc))]
       /\ tk_width t' = (w * 65536) mod 4294967296 /\ tk_height t' = (h * 65536) mod 4294967296
       /\ core t' = core t.
 Proof. exact set_avc_ok. Qed.
